@@ -210,9 +210,13 @@ func init() {
 							c.Skip("run-longer-than-4096")
 						}
 						q := object.NewQuadkeyAndVerticalID(6, ref.Quadkey(6, 24, 53), bz, k, rg.max, rg.min)
+						qBefore := snapObjects([]*object.QuadkeyAndVerticalID{q})
 						ids, err := transform.ConvertQuadkeysAndVerticalIDsToExtendedSpatialIDs([]*object.QuadkeyAndVerticalID{q}, 6, ov)
 						call := fmt.Sprintf("transform.ConvertQuadkeysAndVerticalIDsToExtendedSpatialIDs([{6,%d,%d,%d,%v,%v}], 6, %d)", ref.Quadkey(6, 24, 53), bz, k, rg.max, rg.min, ov)
 						d := map[string]any{"call": call, "want_lo": wlo, "want_hi_incl_top": whiIncl}
+						if snapObjects([]*object.QuadkeyAndVerticalID{q}) != qBefore {
+							c.Violation("C17:bits-to-voxels:modifies-the-callers-request-object", d)
+						}
 						if err != nil {
 							c.Violation("C17:bits-to-voxels:error-on-valid-input", d)
 							return
@@ -278,7 +282,7 @@ func init() {
 						}
 					}},
 				{Name: "voxel-to-bits-lists", Serial: true, Bounds: engine.Bounds{InputDev: -1},
-					Rule: "lists of three vertically stacked voxels (and a coarser voxel containing them) of one column in all 6 orders x ranges x output zooms in one call: the pairs of the call = union of the single-voxel results (relational), no pair twice; non-trivial = distinct (order, range, zoom) whose union has >= 3 cells",
+					Rule: "lists of three vertically stacked voxels (and a coarser voxel containing them) of one column in all 6 orders x ranges x output zooms in one call: the pairs of the call = union of the single-voxel results (relational), no pair twice; the same call repeated after a call that fails part-way (a malformed ID after the voxels) returns the same pairs; non-trivial = distinct (order, range, zoom) whose union has >= 3 cells",
 					Body: func(c *engine.Ctx) {
 						v := []int64{22, 23, 25}[c.In("v", 3)]
 						z := []int64{5, 9, 12}[c.In("outZoom", 3)]
@@ -326,6 +330,25 @@ func init() {
 						}
 						if len(gm) != len(want) {
 							c.Violation("C17:voxel-to-bits:list-result-differs-from-union-of-single-results", map[string]any{"ids": ids, "zoom": z, "range": fmt.Sprint(rg), "got_n": len(gm), "want_n": len(want)})
+						}
+						// a call that fails part-way (the same voxels, then a malformed ID) must leave nothing behind:
+						// the same valid call afterwards returns the same pairs
+						if _, err := transform.ConvertExtendedSpatialIDsToQuadkeysAndVerticalIDs(append(append([]string{}, ids...), "6/24/53/x/1"), 6, z, rg.max, rg.min); err != nil {
+							c.Count("failing_call_then_valid_call")
+							gs2, err2 := transform.ConvertExtendedSpatialIDsToQuadkeysAndVerticalIDs(ids, 6, z, rg.max, rg.min)
+							after := map[int64]bool{}
+							for _, p := range pairsOf(gs2) {
+								after[p.v] = true
+							}
+							same := err2 == nil && len(after) == len(gm)
+							for k := range gm {
+								if !after[k] {
+									same = false
+								}
+							}
+							if !same {
+								c.Violation("C17:voxel-to-bits:result-changes-after-a-failed-call", map[string]any{"ids": ids, "zoom": z, "range": fmt.Sprint(rg), "before_n": len(gm), "after_n": len(after), "err": fmt.Sprint(err2)})
+							}
 						}
 					}},
 				{Name: "bits-to-voxels-lists", Serial: true, Bounds: engine.Bounds{InputDev: -1},
